@@ -4,10 +4,12 @@ import (
 	"encoding/base32"
 	"encoding/base64"
 	"encoding/hex"
+	"encoding/json"
 	"fmt"
 	"os"
 	"strings"
 	"testing"
+	"time"
 
 	"github.com/veraison/psatoken"
 
@@ -102,7 +104,34 @@ func c20Unmarshal(ev *psatoken.Evidence, tok []byte) (err error) {
 	return ev.UnmarshalCOSE(tok)
 }
 
+// c20Kind judges one envelope. "Rejected with an error" includes coming back
+// at all: the judgement runs in its own goroutine, and if it has not finished
+// after c20Patience - twice, the second time in a fresh goroutine - the input
+// (a few hundred bytes) makes a decode call spin or block for ever. A spinning
+// goroutine cannot be stopped, so the finding is printed, the input is left
+// in stall.<pid> (the driver's replay) and the process exits.
+const c20Patience = 20 * time.Second
+
 var c20Kind = registerKind("c20", func(in c20In) string {
+	for attempt := 0; ; attempt++ {
+		done := make(chan string, 1)
+		go func() { done <- c20Judge(in) }()
+		select {
+		case msg := <-done:
+			return msg
+		case <-time.After(c20Patience):
+		}
+		if attempt == 1 {
+			js, _ := json.Marshal(in)
+			file := fmt.Sprintf("stall.%d", os.Getpid())
+			_ = os.WriteFile(file, []byte(fmt.Sprintf("C20: decoding this envelope does not return (2 attempts of %v):\n%s\n", c20Patience, js)), 0o644)
+			fmt.Printf("C20 violated: a library call never returns - decoding the %d-byte envelope %q (%x) did not come back within %v, twice; it is neither accepted nor rejected with an error (input in %s)\n", len(in.Tok), in.Desc, []byte(in.Tok), c20Patience, file)
+			os.Exit(3)
+		}
+	}
+})
+
+func c20Judge(in c20In) string {
 	if strings.Contains(in.Desc, "decoder-panics") {
 		_ = psatoken.RegisterProfile(panickyP2Profile{}) // replay in a fresh process
 	}
@@ -167,7 +196,7 @@ var c20Kind = registerKind("c20", func(in c20In) string {
 		}
 	}
 	return ""
-})
+}
 
 var goodEnv []byte
 
@@ -203,7 +232,7 @@ func c20Replacements() []struct {
 }
 
 func TestC20_EnvelopeGrid(t *testing.T) {
-	st := NewStats("C20", "TestC20_EnvelopeGrid", "enumeration with the independent encoder around correctly signed material (7 algorithms in thorough, EdDSA+ES256 in quick; both profiles): tag in {none, 0..30, 61, 98, 18 nested twice} x array length 0..6; each of the four elements replaced by 20 other CBOR items and by indefinite-length / over-long-head forms; 2-element replacement pairs; 18 payload variants (raw map, double-wrapped, null, h'', h'f6', h'f7', array, int, text, tagged map, map+trailing, two maps, truncated map, ...) plus 19 tag numbers of every head width (incl. numbers whose last byte looks like a map head) x 8 tagged contents (null, undefined, array, int, bstr, text, map, tagged null); 0..3 trailing bytes; correct envelopes of exactly 2^12, 2^16, 2^20 (+-1) bytes alone and with trailing bytes; well-formed messages of the other COSE kinds around the same material (COSE_Sign with 0/1/2 signers incl. a correctly computed one, Mac0, Mac, Encrypt0, Encrypt, Sign1 with a counter-signature element) under 8 tags; the correct envelope in 13 text transport encodings (base64 in four alphabets, hex, data URI, base32, diagnostic notation, ...); 14 content-type / typ header values in either bucket x 6 payloads (claims as JSON text, '{}', 'null', base64 / hex of the claims, the claims map) each correctly signed; non-minimal tag/array heads; the TF-M Mac0 and Sign1 vectors and their tag-swapped variants; correct envelopes whose payload declares a registered extension profile whose own decoder panics for some values of its claim (a fault inside the claims-decoding stage: whatever becomes of the panic, the decode must not report success). Every envelope is also given to Evidence objects with a past (decoded a good token / had claims attached / signed, possibly followed by a failed decode of garbage, a Mac0, a truncated token, a non-map payload), which must agree with a fresh decode. Oracle: DecodeEvidenceFromCOSE / UnmarshalCOSE success implies the independent classifier sees tag 18, 4-array, bstr, map, bstr holding exactly one map item, non-empty bstr, no trailing bytes. Non-trivial = still parses as CBOR and differs from a valid envelope in exactly one structural respect; distinct = grid cell")
+	st := NewStats("C20", "TestC20_EnvelopeGrid", "enumeration with the independent encoder around correctly signed material (7 algorithms in thorough, EdDSA+ES256 in quick; both profiles): tag in {none, 0..30, 61, 98, 18 nested twice} x array length 0..6; each of the four elements replaced by 20 other CBOR items and by indefinite-length / over-long-head forms; 2-element replacement pairs; 18 payload variants (raw map, double-wrapped, null, h'', h'f6', h'f7', array, int, text, tagged map, map+trailing, two maps, truncated map, ...) plus 19 tag numbers of every head width (incl. numbers whose last byte looks like a map head) x 8 tagged contents (null, undefined, array, int, bstr, text, map, tagged null); payload contents that are not well-formed CBOR (heads with the reserved additional-information values 28..31 of every major type, alone / followed by bytes / behind tags; heads cut off inside their argument); 0..3 trailing bytes; correct envelopes of exactly 2^12, 2^16, 2^20 (+-1) bytes alone and with trailing bytes; well-formed messages of the other COSE kinds around the same material (COSE_Sign with 0/1/2 signers incl. a correctly computed one, Mac0, Mac, Encrypt0, Encrypt, Sign1 with a counter-signature element) under 8 tags; the correct envelope in 13 text transport encodings (base64 in four alphabets, hex, data URI, base32, diagnostic notation, ...); 14 content-type / typ header values in either bucket x 6 payloads (claims as JSON text, '{}', 'null', base64 / hex of the claims, the claims map) each correctly signed; non-minimal tag/array heads; the TF-M Mac0 and Sign1 vectors and their tag-swapped variants; correct envelopes whose payload declares a registered extension profile whose own decoder panics for some values of its claim (a fault inside the claims-decoding stage: whatever becomes of the panic, the decode must not report success). Every envelope is also given to Evidence objects with a past (decoded a good token / had claims attached / signed, possibly followed by a failed decode of garbage, a Mac0, a truncated token, a non-map payload), which must agree with a fresh decode. Every judgement must come back within 20 s (twice), else the decode is reported as never returning. Oracle: DecodeEvidenceFromCOSE / UnmarshalCOSE success implies the independent classifier sees tag 18, 4-array, bstr, map, bstr holding exactly one map item, non-empty bstr, no trailing bytes. Non-trivial = still parses as CBOR and differs from a valid envelope in exactly one structural respect; distinct = grid cell")
 	st.Exhaustive = true
 	st.Require = []string{"accepted", "rejected", "tag", "arity", "element", "payload", "trailing", "vector", "transcoded", "header-x-payload", "cose-kind", "size", "decoder-fault"}
 	defer st.Flush(t)
@@ -401,6 +430,30 @@ func TestC20_EnvelopeGrid(t *testing.T) {
 						raw  *icbor.Node
 					}{fmt.Sprintf("bstr-tag%d(%s)", tg, in.name), icbor.Bstr(icbor.Encode(icbor.Tag(tg, in.n)))})
 				}
+			}
+			// payload contents that are NOT well-formed CBOR: a head with one of
+			// the reserved additional-information values 28..30 (and the break
+			// code) for every major type, alone, followed by bytes, and behind
+			// ordinary tags; a head cut off inside its argument
+			for major := 0; major < 8; major++ {
+				for ai := 28; ai <= 31; ai++ {
+					h := byte(major<<5 | ai)
+					for ti, tail := range [][]byte{nil, {0x44, 0xde, 0xad, 0xbe, 0xef}, claims} {
+						for pi, pre2 := range [][]byte{nil, {0xc6}, {0xd9, 0xd9, 0xf7}, {0xd8, 0x3d, 0xc1}} {
+							content := append(append(append([]byte{}, pre2...), h), tail...)
+							pv = append(pv, struct {
+								name string
+								raw  *icbor.Node
+							}{fmt.Sprintf("bstr-ill-formed-head-%02x/tail#%d/tags#%d", h, ti, pi), icbor.Bstr(content)})
+						}
+					}
+				}
+			}
+			for _, cut := range [][]byte{{0xd8}, {0xd9, 0xd9}, {0xda, 0, 0}, {0xdb, 0, 0, 0, 0}, {0xc6, 0xd8}, {0xb8}, {0xb9, 0x01}, {0xbf}, {0xbf, 0x01}, {0x5f}, {0x7f, 0x61}} {
+				pv = append(pv, struct {
+					name string
+					raw  *icbor.Node
+				}{fmt.Sprintf("bstr-cut-head-%x", cut), icbor.Bstr(cut)})
 			}
 			for _, v := range pv {
 				e := elems()
